@@ -458,13 +458,13 @@ def inst_r2c():
             def build(interp, ctx, nm, rank=rank, axis=axis, dt=dt):
                 shape = []
                 for k in range(rank):
-                    d = nm.int(f"x_S{k}")
+                    d = nm.int(f"x_d{k}_N")        # "_N": concrete draws cover 0..13, 16, 22 (both parities, N mod 4 = 0..3)
                     ctx.assume(V.le(0, d), why="input: dims are non-negative")
                     shape.append(d)
                 return (sym_array("x", shape, dt, nm=nm),), {"axis": axis}
             out.append(Instance(f"rank={rank},axis={axis},{dt}", build))
     def build(interp, ctx, nm):
-        d = nm.int("x_S0")
+        d = nm.int("x_d0_N")
         ctx.assume(V.le(0, d), why="input")
         return (sym_array("x", (d,), "float64", nm=nm),), {}
     out.append(Instance("rank=1,default-axis", build))
